@@ -104,22 +104,22 @@ Theorem C29_max_eq_fold :
 Proof. exact max_eq_fold. Qed.
 Print Assumptions C29_max_eq_fold.
 
-(** min_max (pairwise pre-pass over (i, n-1-i), then min of the lower half incl. the middle element,
-    max of the upper half), without key: both extremes, every length *)
+(** min_max (pairwise pre-pass if_swap(key(a) >= key(b), a, b) over (i, n-1-i), then min of the lower
+    half incl. the middle element, max of the upper half): for every key and every non-empty list both
+    results are elements of the list, with minimal resp. maximal key *)
+Theorem C29_min_max_key_spec :
+  forall (A : Type) (key : A -> Z) (d : A) (x : list A), x <> [] ->
+    exists m M, min_max_model key d x = (Some m, Some M) /\ In m x /\ In M x /\
+      (forall a, In a x -> (key m <= key a)%Z) /\ (forall a, In a x -> (key a <= key M)%Z).
+Proof. exact (@min_max_key_spec). Qed.
+Print Assumptions C29_min_max_key_spec.
+
+(** ... without key: both extremes, every length *)
 Theorem C29_min_max_eq_fold :
   forall (a : Z) (l : list Z),
-    min_max_model zid (a :: l) = (Some (fold_left Z.min l a), Some (fold_left Z.max l a)).
+    min_max_model zid 0%Z (a :: l) = (Some (fold_left Z.min l a), Some (fold_left Z.max l a)).
 Proof. exact min_max_eq_fold. Qed.
 Print Assumptions C29_min_max_eq_fold.
-
-(** ... but with key= the pre-pass still compares the elements themselves: the faithful model
-    returns a non-minimal element for key = negation on [1; 2] (replayed on the implementation by
-    the check: finding F-C29-1). *)
-Theorem C29_min_max_key_refuted :
-  exists (key : Z -> Z) (x : list Z) (m M : Z), min_max_model key x = (Some m, Some M) /\
-    ~ (forall a, In a x -> (key m <= key a)%Z).
-Proof. exact min_max_key_refuted. Qed.
-Print Assumptions C29_min_max_key_refuted.
 
 (** argmin / argmax: index i of the FIRST extreme element together with that element; every
     non-empty list, any key *)
@@ -156,5 +156,9 @@ Proof. apply tt_check_sound. vm_compute. reflexivity. Qed.
 Example C29_nonvacuous_select :
   min_model zid [4; 2; 7; 2; 9; 9]%Z = Some 2%Z /\ max_model zid [4; 2; 7; 2; 9; 9]%Z = Some 9%Z /\
   argmin_model zid [4; 2; 7; 2; 9; 9]%Z = Some (1, 2%Z) /\ argmax_model zid [4; 2; 7; 2; 9; 9]%Z = Some (4, 9%Z) /\
-  min_max_model zid [4; 2; 7; 2; 9]%Z = (Some 2%Z, Some 9%Z).
+  min_max_model zid 0%Z [4; 2; 7; 2; 9]%Z = (Some 2%Z, Some 9%Z) /\
+  (* key = negation (the input of former finding F-C29-1, repaired in /repo by fb1729f) *)
+  min_max_model Z.opp 0%Z [1; 2]%Z = (Some 2%Z, Some 1%Z) /\
+  (* list elements compared by their second entry; which of several extreme elements is returned is fixed by the model *)
+  min_max_model snd (0, 0)%Z [(0, 5); (1, 3); (2, 5); (3, 3)]%Z = (Some (1, 3)%Z, Some (2, 5)%Z).
 Proof. vm_compute. repeat split. Qed.
